@@ -14,7 +14,11 @@ def run(chk):
                 'or fails beyond the offset; distinct by (description, entry, input)')
     chk.assumptions += ['rest-capturing regexes and Backtrack(1) >> /./ make the stopping point of each skip observable',
                         'LawLengthen (lengthening ignorable runs changes no value) is model-checked on the members '
-                        'that satisfy its side conditions']
+                        'that satisfy its side conditions',
+                        'mechanism layer: PegVM transcribes how the generated code skips (skip_ignored set on every '
+                        'literal, the rule _ignored = Skip(references to the ignored rules), the leading skip spliced into '
+                        'the start rule); MC_C04 checks LawVMRefines (that mechanism computes the meaning) on every member '
+                        'without classes; OracleVM checks it on the random grammars']
     cases = pegcheck.collect(chk, 'MC_C04', 'MC_C04_' + chk.tier, timeout_s=3000)
     pegcheck.replay(chk, cases, sample_every=9973)
     # seeded random deeper grammars with ignore declarations, judged by the same specification
@@ -32,6 +36,6 @@ def run(chk):
         rcases.append({'id': i, 'g': g,
                        'cfg': {'prop': 'C04', 'ign_first': bool(i % 2), 'ign_names': rng.choice([None, ['Blank', 'Junk']])},
                        'runs': [[rng.choice(['start', 'start', 'R1']), t, 0] for t in texts]})
-    pegcheck.with_oracle(chk, rcases)
+    pegcheck.with_oracle(chk, rcases, module='OracleVM')
     chk.notes['random_grammars'] = len(rcases)
     pegcheck.replay(chk, rcases, sample_every=19997)
